@@ -129,11 +129,11 @@ impl EventGen for LoopElement {
 /// rather than "0.30000000000000004" - but with the digits it has: a step of 0.0625
 /// counts 0.0625, 0.125... as written out by hand.
 fn loop_var_str(value: f64) -> String {
-    let s = format!("{value:.9}");
-    let s = s.trim_end_matches('0').trim_end_matches('.');
-    match s {
-        "-0" | "" => "0".to_owned(),
-        s => s.to_owned(),
+    // (13 significant digits, then the shortest way to write that)
+    let rounded: f64 = format!("{value:.12e}").parse().unwrap_or(value);
+    match rounded == 0. {
+        true => "0".to_owned(),
+        false => format!("{rounded}"),
     }
 }
 
